@@ -45,6 +45,36 @@ structure Drv where
   cache : Option Report := none
   eva : EvPos := evUnavailable
   tx : Tx := {}
+  ph : PhTx := {}
+
+/-- `dlat:dlon:dt` (exact rationals) -/
+def hoff? (t : String) : Option HOff :=
+  match t.splitOn ":" with
+  | [a, b, c] => match rat? a, rat? b, rat? c with
+    | some a, some b, some c => some ⟨a, b, c⟩
+    | _, _, _ => none
+  | _ => none
+
+def showPath (ps : List PathPoint) : String :=
+  " ".intercalate (toString ps.length :: ps.map (fun p => s!"{p.dlat},{p.dlon},{p.dalt},{p.dtime}"))
+
+def vbs? (s : String) : Option Vbs :=
+  if s == "idle" then some .idle else if s == "standalone" then some .standalone
+  else if s == "leader" then some .leader else if s == "passive" then some .passive else none
+
+def joinSub? (s : String) : Option JoinSub :=
+  if s == "none" then some .none else if s == "notify" then some .notify else if s == "waiting" then some .waiting
+  else if s == "cancelled" then some .cancelled else if s == "failed" then some .failed
+  else if s == "joined" then some .joined else none
+
+def bool01? (s : String) : Option Bool := if s == "1" then some true else if s == "0" then some false else none
+
+def b01 (b : Bool) : String := if b then "1" else "0"
+
+def showSend : SendRes → String
+  | .silent => "silent"
+  | .sent i o f => s!"sent {b01 i} {b01 o} {b01 f}"
+  | .fail => "fail"
 
 def bits? (s : String) : Option (List Bool) :=
   s.toList.mapM (fun c => if c == '1' then some true else if c == '0' then some false else none)
@@ -59,7 +89,10 @@ def bits? (s : String) : Option (List Bool) :=
     gdt utcMs → gdt ;  rec msec rxMs → reconstructed ;  clock p3 p6 → camMs vamMs ;  ms p6 → from_timestamp ms
     rxrec cam|vam msec p3 p6     → generation time reconstructed by the reception management reading its clock
     conc leader hasCluster id radius card sched(0/1*) → absent | info id radius card | fail
-    uper lo:hi:v …               → value bits   (the encoder's accumulator after the constrained INTEGER fields) -/
+    uper lo:hi:v …               → value bits   (the encoder's accumulator after the constrained INTEGER fields)
+    ph dlat:dlon:dt …            → n dlat,dlon,dalt,dt …   (`_get_path_history` on the stored entries, newest first)
+    phtick nowMs pos(0/1) dlat:dlon:dt … → sent <-|path> hist=n | skipped hist=n   (one generation attempt, same state as reset)
+    vamsend none|idle|standalone|leader|passive cluster breakup join leaveNotify ldm → silent | sent info op fed | fail -/
 def mapStep (s : Drv) (t : List String) : Drv × String :=
   match t with
   | "msg" :: kind :: rest =>
@@ -126,6 +159,27 @@ def mapStep (s : Drv) (t : List String) : Drv × String :=
       let m : Mgr := ⟨l == 1, if h == 1 then some ⟨id, radius, card⟩ else none⟩
       (s, showInfo (concRun infoLocked m sched))
     | _, _, _, _, _, _ => (s, "bad-op")
+  | "ph" :: offs =>
+    match offs.mapM hoff? with
+    | some hs => (s, showPath (pathHistory hs))
+    | none => (s, "bad-op")
+  | "phtick" :: now :: pos :: offs =>
+    match int? now, bool01? pos, offs.mapM hoff? with
+    | some now, some pos, some hs =>
+      let ph' := phAttempt phGuard PH_CAP s.ph now pos hs
+      if ph'.out.length == s.ph.out.length then ({ s with ph := ph' }, s!"skipped hist={ph'.histLen}")
+      else ({ s with ph := ph' },
+            "sent " ++ (match ph'.out.head? with | some (some ps) => showPath ps | _ => "-") ++ s!" hist={ph'.histLen}")
+    | _, _, _ => (s, "bad-op")
+  | ["vamsend", st, cl, br, jn, lv, ldm] =>
+    match bool01? cl, bool01? br, joinSub? jn, bool01? lv, bool01? ldm with
+    | some cl, some br, some jn, some lv, some ldm =>
+      let c : Option (Option ClState) :=
+        if st == "none" then some none else (vbs? st).map (fun v => some ⟨v, cl, br, jn, lv⟩)
+      match c with
+      | some c => (s, showSend (vamSend VAM_LDM_SNAPSHOT_DEEP VAM_LDM_FEED_GUARDED CHOICE_DEEPCOPYABLE c ldm))
+      | none => (s, "bad-op")
+    | _, _, _, _, _ => (s, "bad-op")
   | "uper" :: fields =>
     let parsed := fields.mapM (fun t => match t.splitOn ":" with
       | [lo, hi, v] => (match int? lo, int? hi, int? v with
